@@ -170,9 +170,17 @@ def run_traces(ctx, rm, cfg, nsim, nrandom, nevents, seed_base, maxitems=6, maxc
     mr = cfg.get('max_retries', 1)
     for variant in range(2):
       sc = []
-      for r in range(mr + 1):
-        sc += [('ConnFailed', d) for d in range(1, nd + 1)] + ([('RetryTimer', d) for d in range(1, nd + 1)] if r < mr else [])
+      if variant:
+        # the destinations were up first: losing the last one pauses the receivers
+        sc += [('ConnMade', d) for d in range(1, nd + 1)] + [('ConnLost', d) for d in range(1, nd + 1)]
+        for r in range(1, mr):
+          sc += [('RetryTimer', d) for d in range(1, nd + 1)] + [('ConnFailed', d) for d in range(1, nd + 1)]
+      else:
+        for r in range(mr + 1):
+          sc += [('ConnFailed', d) for d in range(1, nd + 1)] + ([('RetryTimer', d) for d in range(1, nd + 1)] if r < mr else [])
       sc += [('Arrive', 0)] * (2 + variant)
+      # receivers that connect while everything is paused register their own pause / resume handlers
+      sc += [('RConnect', c) for c in range(1, cfg.get('nr', 1) + 1)]
       sc += [('RetryTimer', 1), ('ConnMade', 1), ('SendTimer', 1), ('SendTimer', 1)]
       if variant and nd > 1:
         sc += [('RetryTimer', 2), ('ConnMade', 2), ('Arrive', 0), ('SendTimer', 2)]
